@@ -551,6 +551,27 @@ def fingerprints(job):
             src = "\n".join(head + C09.render(tree, True)) + "\n"
             vecs = [[rnd.randint(0, 6), rnd.randint(0, 6), rnd.randint(0, 6)] for _ in range(2)]
             prog = G.Prog(src, [], 32, 4)
+            # the native twin decides whether the run is inside what C09 judges at all (no loop bound below its start - the known
+            # finding F-Z -, no value leaving the range in which comparisons fit, no stop beyond max with checkstopmax)
+            thead = ["a = I[0]", "b = I[1]", "c = I[2]"]
+            if tg.lists:
+                thead += ["l = [a + 0, b + 1, 3]", "m = [[a + 1, b + 0], [c + 0, 2]]"]
+            if tg.fxp:
+                thead += ["f = I[0] / 2.0"]
+            if tg.arrays:
+                thead += ["arr = [a + 1, b + 2, 9]"]
+            if tg.shared:
+                thead += ["S = [a + 2, b + 3, 5]", "T = [c + 1, 7, a + 0]"]
+            tns = {"I": list(vecs[job["vec"] % 2]), "TwinMustRaise": C09.TwinMustRaise, "NEG": [], "chk": C09.chk}
+            try:
+                exec(compile("\n".join(thead + C09.render(tree, False)) + "\n", "<vftwin>", "exec"), tns)
+                outside = bool(tns["NEG"])
+            except Exception:
+                outside = True
+            if outside or ({"newvar-in-some-branches-only", "list-length-change-in-region"} & tg.kinds):
+                out.append(None)
+                srcs.append(src)
+                continue
         else:
             g = G.Gen(rnd, features=rnd.choice(FEATURE_MIXES))
             prog = g.program(nstmts=rnd.randint(3, 10))
